@@ -123,6 +123,14 @@ class Res(object):
         return 'R%d' % self.n
 
 
+class EmptyRes(Res):
+    """A resource that is falsy (an empty container-like object): still a resource."""
+    __slots__ = ()
+
+    def __len__(self):
+        return 0
+
+
 class SafePath(PathConverter):
     """A path-like (multi-segment) converter that can veto: what an application writes to keep
     '..' or other unwanted remainders away from a catch-all route."""
@@ -645,7 +653,7 @@ def do_add(st, ch, segs, intent, pos, index):
             pos = pre
     t = render(segs)
     comp = ch.draw(4, 'compile') == 3
-    res = Res(index)
+    res = (EmptyRes if ch.draw(5, 'falsy_resource') == 4 else Res)(index)
     raws = Tree.split(t)
     pre = st.tree.prefix_len(t) if st.model_ok else 0
     if st.inc_dirty:
